@@ -73,7 +73,7 @@ def check_C05(ctx):
                 ctx.violations.append({'what': f"{bd}: {mm['op']} at step {mm['step']}: expected {mm['exp']}, got {mm['got']} {mm.get('msg', '')}",
                                        'replay': path})
     # running scans
-    runs = scan_runs(ctx, 24 if ctx.quick() else 400)
+    runs = scan_runs(ctx, 36 if ctx.quick() else 480)
     traces = [r[0] for r in runs]
     ctx.traces += len(traces)
     for i in validate_batch(ctx, 'TRACE_Scan', 'TRACE_Scan.cfg', traces, 'scan')[:3]:
